@@ -11,6 +11,7 @@ mod regconc;
 mod channel;
 mod iterconc;
 mod iterq;
+mod frontends;
 mod entries;
 mod flags;
 mod pipes;
@@ -30,6 +31,7 @@ fn main() {
         "channel" => channel::main(),
         "iterconc" => iterconc::main(),
         "iterq" => iterq::main(),
+        "frontends" => frontends::main(),
         "entries" => entries::main(),
         "flags" => flags::main(),
         "pipes" => pipes::main(),
